@@ -139,7 +139,8 @@ def run(ctx):
             ctx.lost("R02.1", str(e))
             return
         d = a.msgfield("direction")
-        for q in a.ok_paths():
+        # a direction computed by a helper (e.g. `opposite(direction)`) is opened up so that the writer's argument is a literal
+        for q in splice(ix, a.ok_paths(), lambda e: e.target.locals[0]["ty"].endswith("margined_vamm::Direction")):
             known = None
             for (at, o, _b, _l) in q.conds:
                 a2 = a.s(at)
@@ -327,6 +328,14 @@ def run(ctx):
                                     z = ix.inline(kids(ai)[1])
                                     if isinstance(l, tuple) and l[0] == "size" and tag(z) == "call" and payload(z)[0].endswith("Integer::zero"):
                                         val = (l[1] == LONG) if payload(ai)[0] == "gt" else (l[1] == SHORT)
+                                        if val != o:
+                                            feas = False
+                                if tag(ai) == "call" and o in (True, False) and str(payload(ai)[0]).endswith(("Integer::is_negative", "Integer::is_positive")) and kids(ai):
+                                    # `size.is_negative()` spells `size < 0`; `is_positive()` is its negation (zero counts as positive)
+                                    l = ra.ev(kids(ai)[0])
+                                    if isinstance(l, tuple) and l[0] == "size" and l[1] in (LONG, SHORT):
+                                        neg = l[1] == SHORT
+                                        val = neg if str(payload(ai)[0]).endswith("is_negative") else (not neg)
                                         if val != o:
                                             feas = False
                                 if tag(ai) == "op" and payload(ai)[0] == "discr" and isinstance(o, tuple) and ra.ev(kids(ai)[0]) in ("AddToAmm", "RemoveFromAmm"):
